@@ -14,11 +14,11 @@ EXPECTED_MODULES = 13
 
 
 class Ctx:
-    def __init__(self, root: str, tier: str = "quick") -> None:
+    def __init__(self, root: str, tier: str = "quick", package: str = "chartparse", min_modules: int = 12) -> None:
         self.root = root
         self.tier = tier
-        self.prog = Program(root)
-        if len(self.prog.modules) < 12:
+        self.prog = Program(root, package)
+        if len(self.prog.modules) < min_modules:
             raise AnalysisError(f"only {len(self.prog.modules)} modules parsed under {root}/chartparse; the shipped "
                                 f"package has {EXPECTED_MODULES}")
         self.ev = Evaluator(self.prog)
